@@ -53,18 +53,24 @@ def prog(sig, v, fixed_route=False):
         b = txt(v)
         return '%s%d:%s' % (c, len(b), b.hex())
     if c == 'v':
-        return 'v%d:%s%s' % (len(v[0]), v[0].encode().hex(), prog(v[0], v[1]))
+        return 'v%d:%s%s' % (len(v[0]), v[0].encode().hex(), prog(v[0], v[1], fixed_route))
     if c == 'a':
         es = sig[1:]
         if es[0] == '{':
             inner = split_sig(es[1:-1])
-            items = ''.join('{' + prog(inner[0], k) + prog(inner[1], x) + '}' for k, x in v)
+            items = ''.join('{' + prog(inner[0], k, fixed_route) + prog(inner[1], x, fixed_route) + '}' for k, x in v)
             return 'a%d:%s[%s]' % (len(es), es.encode().hex(), items)
         if fixed_route and len(es) == 1 and (es in FMT or es == 'b') and es != 'h' and len(v) > 0:
-            return 'A%d:%s[%s]' % (len(es), es.encode().hex(), ''.join(prog(es, x) for x in v))
-        return 'a%d:%s[%s]' % (len(es), es.encode().hex(), ''.join(prog(es, x) for x in v))
+            # the array may be filled in several blocks, mixed with single appends (fixed_route may be a random source)
+            rr = fixed_route if hasattr(fixed_route, 'random') else None
+            parts = []
+            for x in v:
+                r = rr.random() if rr else 1.0
+                parts.append(('|' if r < 0.2 else '.' if r < 0.32 else '') + prog(es, x, fixed_route))
+            return 'A%d:%s[%s]' % (len(es), es.encode().hex(), ''.join(parts))
+        return 'a%d:%s[%s]' % (len(es), es.encode().hex(), ''.join(prog(es, x, fixed_route) for x in v))
     if c == '(':
-        return '(' + ''.join(prog(s, x) for s, x in zip(split_sig(sig[1:-1]), v)) + ')'
+        return '(' + ''.join(prog(s, x, fixed_route) for s, x in zip(split_sig(sig[1:-1]), v)) + ')'
     raise ValueError(sig)
 
 
@@ -96,7 +102,7 @@ def program(rng, sigs=None):
             sigs = [gen_wire.rand_sig(rng) for _ in range(len(sigs))]
     vals = [gen_wire.rand_val(rng, s) for s in sigs]
     fl = rng.choice([0, 1, 2, 3, 4, 7])
-    fixed_route = rng.random() < 0.5
+    fixed_route = rng if rng.random() < 0.5 else False
     fields = ';'.join('%s=%s' % (k, v.encode().hex()) for k, v in hdr.items() if k != 'R' and v) or ''
     if hdr['R']:
         fields = (fields + ';' if fields else '') + 'R=%d' % hdr['R']
